@@ -13,7 +13,7 @@ import (
 // reached (property-relevant fields only). Successors of states already seen (same
 // canonical rendering) are not expanded.
 type BFS struct {
-	Starts   []string                                        // start-state names (history[0])
+	Starts   [][]string                                      // start histories (history[0] names a start state)
 	Events   func(hist []string) []string                    // enabled events after hist
 	Exec     func(hist []string) (canon string, expand bool) // runs the implementation; checks invariants itself
 	MaxDepth int
@@ -48,7 +48,7 @@ func (b *BFS) Run() {
 	// depth 0: the start states themselves
 	var tasks []*bfsTask
 	for _, s := range b.Starts {
-		tasks = append(tasks, &bfsTask{hist: []string{s}})
+		tasks = append(tasks, &bfsTask{hist: append([]string{}, s...)})
 	}
 	b.runTasks(tasks)
 	for _, t := range tasks {
